@@ -289,6 +289,7 @@ def run_once(spec, balancer=None):
     res["simtime"] = sim.now
     res["par_calls"] = sim.par_calls
     res["par_tasks"] = sim.par_tasks
+    res["decompose_calls"] = sim.decompose_calls
     res["zombies"] = len(sim.zombies)
     res["events"] = len(sim.log)
     res["bytes_written"] = sim.bytes_written
